@@ -23,10 +23,8 @@ def _var_def(b, name):
     out = []
     for l in b.locals_named(name):
         for bb, idx, kind, payload in b.defs(l):
-            if kind == "assign" and payload["k"] in ("use", "cast"):
-                out.append(flow.describe(b, payload["op"], names=True))
-            elif kind == "assign":
-                out.append(flow.describe(b, {"l": l, "p": []}))
+            if kind == "assign":
+                out.append(flow.describe_rvalue(b, payload, names=True))
             elif kind == "call":
                 out.append("call")
     return out
